@@ -37,10 +37,11 @@ import (
 
 type script struct {
 	self   byte   // '-', 'a', 'n'
-	kind   byte   // 'r' returns, 'e' plain error, 'c' context.Canceled, 'p' panics
+	kind   byte   // 'r' returns (nil slice when k = 0), 'z' returns an empty NON-NIL slice, 'e' plain error, 'c' context.Canceled, 'p' panics
 	k      int    // number of outputs (r/e/c)
 	pv     byte   // panic value: 'v' value, 'e' error, 'n' nil
-	pub    string // ok | err | panic
+	pub    string // ok | err | panic | rej<k>: refuse exactly the calls that contain output id k
+	rej    int    // k of rej<k>, else -1
 	source string
 }
 
@@ -59,17 +60,27 @@ func parseScript(s string) (script, error) {
 		if len(f[1]) != 2 || !strings.ContainsRune("ven", rune(sc.pv)) {
 			return sc, fmt.Errorf("bad panic in %q", s)
 		}
-	case 'r', 'e', 'c':
+	case 'r', 'e', 'c', 'z':
 		sc.kind = f[1][0]
 		k, err := strconv.Atoi(f[1][1:])
 		if err != nil || k < 0 || k > 1000 {
 			return sc, fmt.Errorf("bad count in %q", s)
 		}
 		sc.k = k
+		if sc.kind == 'z' && k != 0 {
+			return sc, fmt.Errorf("z takes 0 only in %q", s)
+		}
 	default:
 		return sc, fmt.Errorf("bad result in %q", s)
 	}
-	if sc.pub != "ok" && sc.pub != "err" && sc.pub != "panic" {
+	sc.rej = -1
+	if strings.HasPrefix(sc.pub, "rej") {
+		k, err := strconv.Atoi(sc.pub[3:])
+		if err != nil || k < 0 {
+			return sc, fmt.Errorf("bad pub in %q", s)
+		}
+		sc.rej = k
+	} else if sc.pub != "ok" && sc.pub != "err" && sc.pub != "panic" {
 		return sc, fmt.Errorf("bad pub in %q", s)
 	}
 	return sc, nil
@@ -78,7 +89,7 @@ func parseScript(s string) (script, error) {
 type config struct {
 	kind  string // pub dis disdeco nil
 	topic string
-	mws   string // "" or word over p,o
+	mws   string // "" or word over p,o,r (router level) and P,O,R (handler level)
 }
 
 func (c config) String() string {
@@ -229,7 +240,10 @@ func (s *scenario) handler(msg *message.Message) ([]*message.Message, error) {
 			panic(nothing) // panic(nil): *runtime.PanicNilError since go1.21
 		}
 	}
-	var outs []*message.Message
+	var outs []*message.Message // nil when the script asks for no outputs …
+	if st.sc.kind == 'z' {
+		outs = []*message.Message{} // … unless it asks for an empty but non-nil slice
+	}
 	for i := 0; i < st.sc.k; i++ {
 		outs = append(outs, s.newOut(st, i))
 	}
@@ -246,6 +260,17 @@ func (s *scenario) middleware(pos int, kind byte) message.HandlerMiddleware {
 	if kind == 'p' {
 		return func(h message.HandlerFunc) message.HandlerFunc {
 			return func(msg *message.Message) ([]*message.Message, error) { return h(msg) }
+		}
+	}
+	if kind == 'r' {
+		// copies the outputs into a fresh slice: an empty but NON-NIL slice when the inner handler returned none
+		return func(h message.HandlerFunc) message.HandlerFunc {
+			return func(msg *message.Message) ([]*message.Message, error) {
+				outs, err := h(msg)
+				rebuilt := make(message.Messages, 0, len(outs))
+				rebuilt = append(rebuilt, outs...)
+				return rebuilt, err
+			}
 		}
 	}
 	return func(h message.HandlerFunc) message.HandlerFunc {
@@ -333,8 +358,16 @@ func (p *recPub) Close() error { return p.inner.Close() }
 type scriptPub struct{ s *scenario }
 
 func (p *scriptPub) Publish(topic string, msgs ...*message.Message) error {
-	st, _ := p.s.identify(msgs)
+	st, ids := p.s.identify(msgs)
 	if st == nil {
+		return nil
+	}
+	if st.sc.rej >= 0 {
+		for _, id := range strings.Split(ids, ".") {
+			if id == strconv.Itoa(st.sc.rej) {
+				return errPublish // this call contains the output the publisher refuses
+			}
+		}
 		return nil
 	}
 	switch st.sc.pub {
@@ -476,9 +509,9 @@ func runScenario(out emitter, cfg config, scripts []script, rng *wh.Rng, yield b
 	// middlewares in registration order; lower case = router level, upper case = handler level (same list in the Router)
 	for i := 0; i < len(cfg.mws); i++ {
 		switch k := cfg.mws[i]; k {
-		case 'p', 'o':
+		case 'p', 'o', 'r':
 			r.AddMiddleware(s.middleware(i, k))
-		case 'P', 'O':
+		case 'P', 'O', 'R':
 			hd.AddMiddleware(s.middleware(i, k+('a'-'A')))
 		}
 	}
@@ -619,7 +652,7 @@ func mustScript(s string) script {
 
 // ---------------------------------------------------------------- generators
 
-var mwPrefixes = []string{"", "p", "o", "po", "op", "oo", "P", "O", "pO", "Op"}
+var mwPrefixes = []string{"", "p", "o", "po", "op", "oo", "P", "O", "pO", "Op", "r", "R", "ro", "or"}
 var topics = []string{"out", "", "topic with space/and.slash", "out"}
 
 func resultsFor(kind string) []string {
@@ -627,12 +660,13 @@ func resultsFor(kind string) []string {
 		// a NoPublishHandlerFunc cannot return messages; outputs come from output-adding middleware only
 		return []string{"r0", "e0", "c0", "pv", "pe", "pn"}
 	}
-	return []string{"r0", "r1", "r3", "e0", "e1", "e3", "c0", "c2", "pv", "pe", "pn"}
+	return []string{"r0", "z0", "r1", "r3", "e0", "e1", "e3", "c0", "c2", "pv", "pe", "pn"}
 }
 
 func pubsFor(kind string) []string {
 	if kind == "pub" {
-		return []string{"ok", "err", "panic"}
+		// rej<k>: the verdict depends on the messages of the call – every handler output position and a middleware output
+		return []string{"ok", "err", "panic", "rej0", "rej1", "rej2", "rej100", "rej101"}
 	}
 	return []string{"ok"} // the script's publisher behaviour is never consulted
 }
@@ -652,6 +686,8 @@ func count(out emitter, cfg config, sc script, batch bool) {
 	res := string(sc.kind)
 	if sc.kind == 'p' {
 		res += string(sc.pv)
+	} else if sc.kind == 'z' {
+		res = "z0(empty-non-nil)"
 	} else {
 		switch {
 		case sc.k == 0:
@@ -664,7 +700,11 @@ func count(out emitter, cfg config, sc script, batch bool) {
 	}
 	out.Count(p + "result." + res)
 	if cfg.kind == "pub" {
-		out.Count(p + "pub." + sc.pub)
+		if sc.rej >= 0 {
+			out.Count(p + "pub.rej<k>")
+		} else {
+			out.Count(p + "pub." + sc.pub)
+		}
 	}
 }
 
@@ -706,14 +746,14 @@ func randomScript(rng *wh.Rng, kind string) script {
 		case 1:
 			res = rng.Pick("e", "c") + wh.Itoa(rng.Intn(4))
 		case 2:
-			res = "r0"
+			res = rng.Pick("r0", "z0")
 		default:
 			res = "r" + wh.Itoa(1+rng.Intn(5))
 		}
 	}
 	pb := "ok"
 	if kind == "pub" {
-		pb = rng.Pick("ok", "ok", "ok", "err", "panic")
+		pb = rng.Pick("ok", "ok", "ok", "err", "panic", "rej"+wh.Itoa(rng.Intn(5)), "rej"+wh.Itoa(100+rng.Intn(2)))
 	}
 	return mustScript(self + "." + res + "." + pb)
 }
